@@ -484,11 +484,17 @@ func c14Instances(add func(*Instance), thorough bool) {
 		P("ak", 3, "akeys", 4, "acow", 0, "ac0", 1, "ac1", 220, "ac2", 1),
 	}
 	for _, sh := range shapes {
-		for m := 0; m <= 5; m++ {
+		for m := 0; m <= 8; m++ { // (m=9, in-place AndNot with a range bitmap, converts free run positions through bitmaps: undecided)
 			for opt := 0; opt <= 1; opt++ {
 				ln := 3
 				if m == 5 {
 					ln = 2
+				}
+				if m >= 8 {
+					ln = 7
+				}
+				if m >= 6 && opt == 1 {
+					continue
 				}
 				tier := 0
 				if m == 5 && sh["ac0"] == 202 {
